@@ -8,8 +8,8 @@ PROP = dict(
     driver_args=["--fixed=" + os.environ.get("VERIF_TXN_FIXED", TXN_FIXED), "--focus=c18/,ctor_fact,vop"],
     props=["Hostd.Props.C18"],
     flag_filter=r"^c18/|^vop|^ctor_fact",
-    quick=dict(n=20, len=14, shards=10, timeout=400, extra=dict(c18="1")),
-    thorough=dict(n=160, len=30, shards=16, timeout=1700, extra=dict(c18="1")),
+    quick=dict(n=24, len=14, shards=12, timeout=400, extra=dict(c18="1")),
+    thorough=dict(n=192, len=30, shards=16, timeout=1700, extra=dict(c18="1")),
     nontrivial=r"^restart ", min_ops=6, min_kinds=2,
     shrink_budget=40, replay_timeout=300,
     rule="one evaluation = one generated history on a real sqlite.Store with the real managers (contracts, accounts, settings, pin, webhooks, volume manager with real volume files in the V histories); after random prefixes and at the end every manager is closed (or, abrupt variant, the database files are copied while everything is open) and re-created on the same directory; what the MANAGERS serve (contracts.Manager.SectorRoots of every live v1/v2 contract, also checked against the signed revision's Merkle root and size; ConfigManager.Settings, pin.Manager.Pinned, AccountManager balances, webhooks.Manager.Webhooks, VolumeManager.Volumes/Usage and real sector reads; in the indexer histories index.Manager.Tip and the wallet balance) and every exported store getter are compared before/after as canonical JSON; the fields histories change every settings column and every pinned-settings column on its own after the first insert and reorder v1/v2 root lists (swap, free, trim + re-append, duplicates), a test event is broadcast to a local HTTP sink before and after; non-trivial = the history contains a restart",
